@@ -18,5 +18,7 @@ for d in sorted(glob.glob(V+"/seeded/*/")):
       "confirmed":{"what_i_ran":"tools/seedcheck.sh: fresh scratch worktree of /repo HEAD; demonstration without the change; git apply patch.diff; go build ./...; demonstration with the change; unedited suite `go test -vet=off -count=1 ./...` with the change (core/eventloop TestTicker re-run alone if it was the only failure)",
                    "build_ok":bool(m and m.group(1)=="0"),"demo_passes_without_change":bool(m and m.group(2)=="0"),"demo_fails_with_change":bool(m and m.group(3)!="0"),"suite_failures_with_change":int(m.group(4)) if m else None},
       "detection":{"quick_tier_checks_that_report_a_violation":sorted(set(caught)),"quick_tier_checks_run_that_stay_silent":sorted(set(missed)-set(caught)),"fingerprints":sorted(set(f[1] for f in fps))[:6]}}
+    if os.path.exists(d+"note.txt"): meta["note"]=open(d+"note.txt").read().strip()
+    if os.path.exists(d+"patch.rebased.diff"): meta["rebased"]="patch.rebased.diff is the same change re-applied by hand after later repairs of /repo moved the context; the detection log refers to it"
     json.dump(meta,open(d+"meta.json","w"),indent=1)
     print(name,meta["confirmed"],meta["detection"]["quick_tier_checks_that_report_a_violation"],meta["detection"]["quick_tier_checks_run_that_stay_silent"])
